@@ -38,6 +38,9 @@ func (g *Graph) Execute(ctx context.Context, cmd string) error {
 		args = append(args, value)
 		left = strings.TrimSpace(left)
 		if len(left) == 0 {
+			if node.Run == nil {
+				return errors.New("incomplete command")
+			}
 			return node.Run(ctx, args)
 		}
 		// find next node
